@@ -50,7 +50,7 @@ Arguments ROk {A}. Arguments RPanic {A}.
 
 Definition P_split : N := 1.      (* str::split_at: byte index not on a char boundary / past the end *)
 Definition P_index : N := 2.      (* files[position.file]: index out of range *)
-Definition P_overflow : N := 3.   (* pos.column + 1 overflows usize (builds with overflow checks) *)
+Definition P_overflow : N := 3.   (* pos.line + 1 / pos.column + 1 overflows usize (builds with overflow checks) *)
 
 Definition rbind {A B} (x : rres A) (f : A -> rres B) : rres B :=
   match x with ROk a => f a | RPanic k => RPanic k end.
@@ -155,19 +155,21 @@ Fixpoint render_lines (line col : N) (msg : str) (additional : bool) (min_ind : 
               rbind (render_lines line col msg additional min_ind r) (fun b => ROk (a ++ b)))
   end.
 
-(** lib.rs message_for_line *)
+(** lib.rs message_for_line.  [pos.line + 1] and [pos.column + 1] are formatted on every path (the two
+    bare-message paths name file, line and column too), so an overflow of either is a panic in builds with
+    overflow checks whatever the text. *)
 Definition message_for_line (path src : str) (line col : N) (msg : str) (additional : bool) : rres str :=
   let rel := firstn 5 (skipN (line - 2) (enumerate_from 0 (lines src))) in
-  if forallb (fun p => negb (fst p =? line)) rel then ROk msg
-  else match minimum_indent rel with
-       | None => ROk msg
-       | Some mi =>
-           if usize_max <=? col then RPanic P_overflow
-           else
-             let head := path ++ [58] ++ dec (line + 1) ++ [58] ++ dec (col + 1) ++ [10] in
+  if (usize_max <=? line) || (usize_max <=? col) then RPanic P_overflow
+  else
+    let head := path ++ [58] ++ dec (line + 1) ++ [58] ++ dec (col + 1) ++ [10] in
+    if forallb (fun p => negb (fst p =? line)) rel then ROk (head ++ msg)
+    else match minimum_indent rel with
+         | None => ROk (head ++ msg)
+         | Some mi =>
              rbind (render_lines line col msg additional mi rel) (fun body =>
                ROk ((if additional then INDENT else []) ++ head ++ body))
-       end.
+         end.
 
 Record rpos := mkRP { rp_line : N; rp_col : N; rp_file : N; rp_builtin : bool }.
 
